@@ -431,6 +431,26 @@ pub(crate) fn fmt_snippet_window_offset_or_fallback(
     )
 }
 
+/// Write the marker line of a hand-rendered window: `caret_chars` blanks, then `^` and the
+/// message. The padding is written blank by blank: a run-time format width (`{:>n$}`) panics
+/// above `u16::MAX`, and the column of a node is bounded only by the length of its line.
+fn write_caret_line(
+    f: &mut fmt::Formatter<'_>,
+    gutter_width: usize,
+    caret_chars: usize,
+    msg: &str,
+) -> fmt::Result {
+    write!(f, "{blank:>gutter_width$} | ", blank = "")?;
+    for _ in 0..caret_chars {
+        f.write_str(" ")?;
+    }
+    if msg.is_empty() {
+        writeln!(f, "^")
+    } else {
+        writeln!(f, "^ {msg}")
+    }
+}
+
 fn fmt_snippet_window_with_mapping_or_fallback(
     f: &mut fmt::Formatter<'_>,
     _l10n: &dyn Localizer,
@@ -543,22 +563,7 @@ fn fmt_snippet_window_with_mapping_or_fallback(
                 .map(|i| i + 1)
                 .unwrap_or(0);
             let caret_chars = window_text[line_byte_start..local_start].chars().count();
-            if msg.is_empty() {
-                writeln!(
-                    f,
-                    "{blank:>gutter_width$} | {space:>caret_chars$}^",
-                    blank = "",
-                    space = ""
-                )?;
-            } else {
-                writeln!(
-                    f,
-                    "{blank:>gutter_width$} | {space:>caret_chars$}^ {msg}",
-                    blank = "",
-                    space = "",
-                    msg = msg
-                )?;
-            }
+            write_caret_line(f, gutter_width, caret_chars, msg)?;
         }
 
         cur_row += 1;
@@ -579,22 +584,7 @@ fn fmt_snippet_window_with_mapping_or_fallback(
                 .map(|i| i + 1)
                 .unwrap_or(0);
             let caret_chars = window_text[line_byte_start..local_start].chars().count();
-            if msg.is_empty() {
-                writeln!(
-                    f,
-                    "{blank:>gutter_width$} | {space:>caret_chars$}^",
-                    blank = "",
-                    space = ""
-                )?;
-            } else {
-                writeln!(
-                    f,
-                    "{blank:>gutter_width$} | {space:>caret_chars$}^ {msg}",
-                    blank = "",
-                    space = "",
-                    msg = msg
-                )?;
-            }
+            write_caret_line(f, gutter_width, caret_chars, msg)?;
         }
     }
 
